@@ -32,8 +32,8 @@ RULE = ("case = random history (<= 12 ops quick / <= 30 thorough) of: construct 
         "zero_weights True / False / not passed), write into module (non-zero biases), construct from module (3 state types; with nothing but the required "
         "num_visible, with the module's own sizes, or with inconsistent / None / 0 values of num_visible / num_hidden / num_aux chosen independently, by "
         "keyword or positionally: the state must take its sizes from the module), sizes-branch constructors also called positionally, external "
-        "in-place write into ONE network, fit with bases (24 optimizer settings over SGD, Adam, AdamW, Adadelta, Adagrad, RMSprop, Adamax, NAdam, RAdam, "
-        "Rprop, ASGD incl. amsgrad / maximize / decoupled decay / foreach, with or without a StepLR / ExponentialLR scheduler; a callback inspects the "
+        "in-place write into ONE network, fit with bases (29 optimizer settings over SGD, Adam, AdamW, Adadelta, Adagrad, RMSprop, Adamax, NAdam, RAdam, "
+        "Rprop, ASGD, Adafactor incl. amsgrad / maximize / decoupled decay / foreach / fused, with or without a StepLR / ExponentialLR scheduler; a callback inspects the "
         "phase aux bias after EVERY batch; one fixed history trains a mixed state once with every setting), fit without bases (must be refused — any "
         "exception — with parameters, storages, callback events, torch RNG state, stop flag, data and bases all unchanged), "
         "reinitialize_parameters (often followed by a fit), save/load/autoload; the 'random' weights the model is given are recomputed "
@@ -283,8 +283,9 @@ class Hooks:
         ctx, t = self.ctx, op["t"]
         cs = self.cs(op)
         nets = [getattr(st, n) for st in real.models.values() for n in st.networks] + list(real.modules.values())
-        ctx.oracle("every network keeps its parameters registered in the documented order", all(order_ok(x) for x in nets), cs,
-                   detail={"orders": sorted({tuple(k for k, _ in x.named_parameters()) for x in nets})}, sig=f"{t}/parameter-order")
+        # AUXILIARY (audit2-4 C20-2): registration order and names of the parameters are C03 / C06's invariant (vector_to_grads), not a clause of C20
+        ctx.point("every network keeps its parameters registered in the documented order", "aux", all(order_ok(x) for x in nets), True, cs, exact=True,
+                  sig=f"{t}/parameter-order")
         if t == "construct" and err is None:
             st = real.models[op["slot"]]
             self.interesting.discard(op["slot"])
@@ -335,9 +336,9 @@ class Hooks:
                 if ok:
                     st = real.models[op["slot"]]
                     ok = st.rbm_am is mod and ptrs(st.rbm_am) == ptrs(mod)
-                    ok = ok and st.__dict__["num_visible"] == mod.num_visible and st.__dict__["num_hidden"] == mod.num_hidden
+                    ok = ok and st.num_visible == mod.num_visible and st.num_hidden == mod.num_hidden
                     if op["kind"] == "dens":
-                        ok = ok and st.__dict__["num_aux"] == mod.num_aux
+                        ok = ok and st.num_aux == mod.num_aux
                     # ... whatever sizes were passed alongside the module; the module itself keeps its sizes, shapes and contents
                     ok = ok and net_sizes(mod) == pre["module_sizes"] and so.nets_equal(net_snap(mod), pre["module"])
                     if len(st.networks) == 2:
@@ -352,7 +353,7 @@ class Hooks:
                 ctx.oracle("module branch: amplitude network IS the module (parameters and sizes, whatever sizes are passed alongside it), "
                            "phase network an independent equal copy", ok, cs,
                            detail={"err": err, "sizes_passed": given, "module_sizes": pre["module_sizes"],
-                                   "state_sizes": None if err is not None else [real.models[op["slot"]].__dict__.get(k) for k in ("num_visible", "num_hidden", "num_aux")]},
+                                   "state_sizes": None if err is not None else [getattr(real.models[op["slot"]], k, None) for k in ("num_visible", "num_hidden", "num_aux")]},
                            sig="constructFrom/module", theorem="C20_module, C20_module_sizes_from_module, C20_module_args_ignored")
         if t == "write" and err is None:
             st = real.models[op["slot"]]
@@ -734,6 +735,17 @@ def run(ctx):
         one_case(ctx, case)
     for case in gen_cases(ctx, ctx.tier == "thorough"):
         one_case(ctx, case)
+
+
+def env_run(ctx, env_name):
+    """the same property for a caller who changed a process-global setting (harness/common.py ENVS: default dtype float64, no_grad,
+    another working directory): the wrong-module probe, every hand-written history (both constructor branches of all three state
+    types, reinitialisation, the fit guards, one fit per optimizer) and gradient cases, all objects constructed inside the environment"""
+    wrong_module_probe(ctx)
+    for case in fixed_cases():
+        one_case(ctx, case)
+    for _ in range(6):
+        one_case(ctx, gen_grad(ctx.rng))
 
 
 def search(ctx):
